@@ -134,6 +134,7 @@ theorem maskName_part (vk : Option Param) (st : KState) (x v o : Nat) :
         | some param => .ok { st with kwo := pset st.kwo (boundParam param v),
                                       consumed := st.consumed ++ [x] }
         | none => if vk.isNone then .error .valueError
+                  else if starNamed st.va vk x then .ok { st with consumed := st.consumed ++ [x] }
                   else .ok { st with kwo := pset st.kwo { name := x, kind := .ko, dflt := some v },
                                      src := dset st.src x [o],
                                      consumed := st.consumed ++ [x] } := by
@@ -244,8 +245,12 @@ inductive StepKindP (vk : Option Param) (st : KState) (x v o : Nat) : Except Err
       StepKindP vk st x v o
         (.ok { st with kwo := pset st.kwo (boundParam param v), consumed := st.consumed ++ [x] })
   | toVk : x ∉ st.consumed → x ∉ names st.pok → x ∉ names st.kwo → vk.isSome = true →
+      starNamed st.va vk x = false →
       StepKindP vk st x v o
         (.ok { st with kwo := st.kwo ++ [newParam x v], src := dset st.src x [o], consumed := st.consumed ++ [x] })
+  | toStar : x ∉ st.consumed → x ∉ names st.pok → x ∉ names st.kwo → vk.isSome = true →
+      starNamed st.va vk x = true →
+      StepKindP vk st x v o (.ok { st with consumed := st.consumed ++ [x] })
   | noVk : x ∉ st.consumed → x ∉ names st.pok → x ∉ names st.kwo → vk = none →
       StepKindP vk st x v o (.error .valueError)
 
@@ -309,7 +314,11 @@ theorem maskNameP_kind {pos : List Param} {vk : Option Param} {st : KState} (inv
         rw [hps]
         cases hv : vk with
         | none => simp only [Option.isNone_none, if_true]; exact .noVk hc hxp hxk rfl
-        | some w => simp only [Option.isNone_some, Bool.false_eq_true, if_false]; exact .toVk hc hxp hxk rfl
+        | some w =>
+          simp only [Option.isNone_some, Bool.false_eq_true, if_false]
+          by_cases hs : starNamed st.va (some w) x = true
+          · rw [if_pos hs]; exact .toStar hc hxp hxk rfl hs
+          · rw [if_neg hs]; exact .toVk hc hxp hxk rfl (by simpa using hs)
 
 
 
@@ -419,7 +428,8 @@ theorem stepP_inv {pos : List Param} {vk : Option Param} {st st' : KState} {x v 
     (st'.va = none ∨ st'.va = st.va) ∧ st'.pok <+: st.pok ∧ x ∉ names st'.pok ∧
     (x ∈ names st.pok → st'.va = none) ∧
     (∀ p ∈ st.kwo, p.name ≠ x → p ∈ st'.kwo) ∧
-    (∃ p ∈ st'.kwo, p.name = x ∧ p.kind = .ko ∧ p.dflt = some v) := by
+    (¬ (x ∉ names st.pok ∧ x ∉ names st.kwo ∧ starNamed st.va vk x = true) →
+      ∃ p ∈ st'.kwo, p.name = x ∧ p.kind = .ko ∧ p.dflt = some v) := by
   obtain ⟨bk, ndk, df, pre, hpre, hcons⟩ := inv
   cases hk with
   | hitPok before conv bp hc hpok hx =>
@@ -450,7 +460,7 @@ theorem stepP_inv {pos : List Param} {vk : Option Param} {st st' : KState} {x v 
         List.mem_append, List.mem_cons] at ndk
       grind
     · intro p hp _; simp [hp]
-    · exact ⟨boundParam bp v, by simp, rfl, rfl, rfl⟩
+    · exact fun _ => ⟨boundParam bp v, by simp, rfl, rfl, rfl⟩
   | hitKwo param hc hp hmem hname =>
     subst hname
     have hnm : (boundParam param v).name ∈ names st.kwo := mem_names_of_mem hmem (p := param)
@@ -475,8 +485,8 @@ theorem stepP_inv {pos : List Param} {vk : Option Param} {st st' : KState} {x v 
       · exact Or.inr (Or.inl h)
     · intro p hp' hne
       exact (mem_pset_iff hndk hnm).2 (Or.inl ⟨hp', hne⟩)
-    · exact ⟨boundParam param v, (mem_pset_iff hndk hnm).2 (Or.inr rfl), rfl, rfl, rfl⟩
-  | toVk hc hp hkw hv =>
+    · exact fun _ => ⟨boundParam param v, (mem_pset_iff hndk hnm).2 (Or.inr rfl), rfl, rfl, rfl⟩
+  | toVk hc hp hkw hv hns =>
     simp only [sOf] at bk
     refine ⟨⟨⟨bk.pos, bk.pok, bk.va, ?_, bk.vk⟩, ?_, df, pre, hpre, ?_⟩, rfl, ?_, Or.inr rfl,
       List.prefix_refl _, hp, fun h => absurd h hp, ?_, ?_⟩
@@ -494,12 +504,20 @@ theorem stepP_inv {pos : List Param} {vk : Option Param} {st st' : KState} {x v 
         List.mem_singleton] at hy
       grind
     · intro p hp' _; simp [hp']
-    · exact ⟨newParam x v, by simp, rfl, rfl, rfl⟩
+    · exact fun _ => ⟨newParam x v, by simp, rfl, rfl, rfl⟩
+  | toStar hc hp hkw hv hs =>
+    refine ⟨⟨bk, ndk, df, pre, hpre, ?_⟩, rfl, ?_, Or.inr rfl,
+      List.prefix_refl _, hp, fun h => absurd h hp, fun p hp' _ => hp', fun h => absurd ⟨hp, hkw, hs⟩ h⟩
+    · intro y hy; simp [hcons y hy]
+    · intro y hy
+      rcases hy with h | h
+      · exact Or.inl h
+      · exact Or.inr (Or.inl h)
 
 theorem stepP_src {vk : Option Param} {st st' : KState} {x v o : Nat}
     (hk : StepKindP vk st x v o (.ok st')) :
     (∀ y, y ≠ x → (∀ a, st.va = some a → a.name ≠ y) → dget st'.src y = dget st.src y) ∧
-    (x ∉ names st.pok → x ∉ names st.kwo → dget st'.src x = some [o]) := by
+    (x ∉ names st.pok → x ∉ names st.kwo → starNamed st.va vk x = false → dget st'.src x = some [o]) := by
   cases hk with
   | hitPok before conv bp hc hpok hx =>
     constructor
@@ -511,8 +529,10 @@ theorem stepP_src {vk : Option Param} {st st' : KState} {x v o : Nat}
     · intro h; exfalso; apply h; rw [hpok, ← hx]; simp
   | hitKwo param hc hp hmem hname =>
     exact ⟨fun _ _ _ => rfl, fun _ h => absurd (hname ▸ mem_names_of_mem hmem) h⟩
-  | toVk hc hp hkw hv =>
-    exact ⟨fun y hy _ => dget_dset_ne _ _ (Ne.symm hy), fun _ _ => dget_dset_self _ _ _⟩
+  | toVk hc hp hkw hv hns =>
+    exact ⟨fun y hy _ => dget_dset_ne _ _ (Ne.symm hy), fun _ _ _ => dget_dset_self _ _ _⟩
+  | toStar hc hp hkw hv hs =>
+    exact ⟨fun _ _ _ => rfl, fun _ _ h => by rw [hs] at h; cases h⟩
 
 
 theorem stepP_acc {pos : List Param} {vk : Option Param} {st st' : KState} {x v o : Nat}
@@ -574,7 +594,15 @@ theorem stepP_acc {pos : List Param} {vk : Option Param} {st st' : KState} {x v 
       · rfl
       · rw [boundParam_name, mem_names_ppop]; simp
       · exact step_kwo (va := st.va) (vk := vk) m _ hx1 hKx hnm
-  | toVk hc hp hkw hv =>
+  | toStar hc hp hkw hv hs =>
+    refine ⟨hnd, ?_⟩
+    have hp1 : ∀ p ∈ pos, p.name ≠ x := fun p h e => hxp (e ▸ mem_names_of_mem h)
+    have hp2 : ∀ p ∈ st.pok, p.name ≠ x := fun p h e => hp (e ▸ mem_names_of_mem h)
+    have hp3 : ∀ p ∈ st.kwo, p.name ≠ x := fun p h e => hkw (e ▸ mem_names_of_mem h)
+    unfold AccP
+    simp only [sOf, List.mem_cons, List.mem_filter, decide_eq_true_eq]
+    grind
+  | toVk hc hp hkw hv hns =>
     constructor
     · simp only [names_append, names_cons, names_nil, newParam, List.nodup_append, List.nodup_cons,
         List.mem_append, List.mem_cons] at hnd ⊢
